@@ -1913,7 +1913,7 @@ impl CommandParser {
             "TYPE" => Command::Key(Self::parse_type(frames)?),
             "RENAME" => Command::Key(Self::parse_rename(frames)?),
             "RENAMENX" => Command::Key(Self::parse_renamenx(frames)?),
-            "RANDOMKEY" => Command::Key(KeyCommand::RandomKey),
+            "RANDOMKEY" => Command::Key(Self::parse_no_args(frames, "RANDOMKEY", KeyCommand::RandomKey)?),
             
             // Server commands
             "PING" => Command::Server(Self::parse_ping(frames)?),
@@ -1937,9 +1937,9 @@ impl CommandParser {
             "ZSCAN" => Command::Scan(Self::parse_zscan_cmd(frames)?),
             
             // Database commands
-            "FLUSHDB" => Command::Database(DatabaseCommand::FlushDb),
-            "FLUSHALL" => Command::Database(DatabaseCommand::FlushAll),
-            "DBSIZE" => Command::Database(DatabaseCommand::DbSize),
+            "FLUSHDB" => Command::Database(Self::parse_no_args(frames, "FLUSHDB", DatabaseCommand::FlushDb)?),
+            "FLUSHALL" => Command::Database(Self::parse_no_args(frames, "FLUSHALL", DatabaseCommand::FlushAll)?),
+            "DBSIZE" => Command::Database(Self::parse_no_args(frames, "DBSIZE", DatabaseCommand::DbSize)?),
             "KEYS" => Command::Database(Self::parse_keys_cmd(frames)?),
             
             // Consumer Group commands
@@ -1988,6 +1988,14 @@ impl CommandParser {
             RespFrame::BulkString(Some(bytes)) => Ok(bytes.as_ref().clone()),
             _ => Err(FerrousError::Command(CommandError::InvalidArgumentType)),
         }
+    }
+    
+    /// A command that takes no arguments (RANDOMKEY, FLUSHDB, FLUSHALL, DBSIZE)
+    fn parse_no_args<T>(frames: &[RespFrame], name: &str, command: T) -> Result<T> {
+        if frames.len() != 1 {
+            return Err(FerrousError::Command(CommandError::WrongNumberOfArguments(name.into())));
+        }
+        Ok(command)
     }
     
     fn parse_set(frames: &[RespFrame]) -> Result<StringCommand> {
